@@ -140,6 +140,7 @@ Exec ==
          [] ins.op = "A1" -> IF stack = <<>> THEN Halt(S0, "ValueStackUnderflow") ELSE [next EXCEPT !.stack = Append(Pop1, 0)]
          [] ins.op = "A2" -> IF Len(stack) < 2 THEN Halt(S0, "ValueStackUnderflow") ELSE [next EXCEPT !.stack = Append(Pop2, 0)]
          [] ins.op = "P0" -> next
+         [] ins.op = "P3" -> IF Len(stack) < 3 THEN Halt(S0, "ValueStackUnderflow") ELSE [next EXCEPT !.stack = SubSeq(stack, 1, Len(stack) - 3)]
          [] ins.op = "P5" -> IF Len(stack) < 5 THEN Halt(S0, "ValueStackUnderflow") ELSE [next EXCEPT !.stack = SubSeq(stack, 1, Len(stack) - 5)]
          [] ins.op = "P1" -> IF stack = <<>> THEN Halt(S0, "ValueStackUnderflow") ELSE [next EXCEPT !.stack = Pop1]
          [] ins.op = "P2" -> IF Len(stack) < 2 THEN Halt(S0, "ValueStackUnderflow") ELSE [next EXCEPT !.stack = Pop2]
